@@ -125,15 +125,6 @@ Proof.
   - right. apply in_or_app. right. apply in_or_app. right. exact H.
 Qed.
 
-Lemma core_lfn :
-  (forall t, In t live -> t_is_valid t = true -> is_lfn (t_attr t) = true -> lfn_inert (snd t)) ->
-  (forall t, In t live' -> t_is_valid t = true -> is_lfn (t_attr t) = true -> lfn_inert (snd t)).
-Proof.
-  intros H t Ht Hv Hlfn. destruct (core_in' t Ht) as [->|Hin]; [|exact (H t Hin Hv Hlfn)].
-  pose proof (node_short new Hnew) as Hs. unfold short_slot in Hs. rewrite Hlfn in Hs.
-  apply andb_true_iff in Hs. destruct Hs as [_ Hs]. discriminate Hs.
-Qed.
-
 Lemma core_no_dots a : no_dots (a ++ X ++ r) -> no_dots (a ++ new :: r).
 Proof.
   unfold no_dots. intros H. apply Forall_app in H. destruct H as [Ha H].
@@ -173,12 +164,11 @@ Lemma dir_ok_core d d' v own parent bl bl' l1 X r new :
   dir_nodes d bl = filter node_slot l1 ++ filter node_slot r /\
   dir_nodes d' bl' = filter node_slot l1 ++ new :: filter node_slot r.
 Proof.
-  intros E E' Hct HX HXr Hnew Hfresh [A B C D]. unfold dir_shorts in Hfresh, B.
-  rewrite E in Hfresh, B, C, D.
+  intros E E' Hct HX HXr Hnew Hfresh [A B D]. unfold dir_shorts in Hfresh, B.
+  rewrite E in Hfresh, B, D.
   split; [constructor|].
   - exact Hct.
   - unfold dir_shorts. rewrite E'. exact (core_names l1 X r new HX Hnew Hfresh B).
-  - rewrite E'. exact (core_lfn l1 X r new Hnew C).
   - rewrite E'. exact (core_dots (v_fat32 v) own parent l1 X r new HX HXr Hnew D).
   - unfold dir_nodes. rewrite E, E'. split; [apply core_nodes; exact HX|apply core_nodes'; exact Hnew].
 Qed.
@@ -478,9 +468,6 @@ Proof.
   - unfold dir_shorts. rewrite Hlive. cbn [filter]. rewrite S0, S1. cbn [map]. rewrite N0, N1.
     constructor; [|constructor; [intros []|constructor]].
     intros [H|[]]. discriminate H.
-  - rewrite Hlive. intros t [<-|[<-|[]]] _ Hlfn.
-    + unfold short_slot in S0. rewrite Hlfn in S0. apply andb_true_iff in S0. destruct S0 as [_ S0]. discriminate S0.
-    + unfold short_slot in S1. rewrite Hlfn in S1. apply andb_true_iff in S1. destruct S1 as [_ S1]. discriminate S1.
   - rewrite Hlive. unfold dots_ok. apply N.eqb_neq in Hown. rewrite Hown.
     exists t0, t1, []. split; [reflexivity|]. split; [exact D0|]. split; [exact D1|constructor].
 Qed.
@@ -557,9 +544,10 @@ Theorem name_fresh d bl sfn : clean_tail (slots_of d bl) ->
 Proof.
   intros Hct Hfind Hin. rewrite (live_clean d bl Hct) in Hfind. fold (dir_live d bl) in Hfind.
   apply in_map_iff in Hin. destruct Hin as (t & Et & Ht).
-  unfold dir_shorts in Ht. apply filter_In in Ht. destruct Ht as [Ht _].
+  unfold dir_shorts in Ht. apply filter_In in Ht. destruct Ht as [Ht Hs].
   pose proof (find_none _ _ Hfind t Ht) as E. unfold t_matches, matches in E.
-  unfold t_name in Et. rewrite Et, list_eqb_refl in E. discriminate E.
+  destruct (PrGlobalDef.short_valid t Hs) as [_ Hnl]. unfold t_attr in Hnl.
+  unfold t_name in Et. rewrite Et, list_eqb_refl, Hnl in E. discriminate E.
 Qed.
 
 (* ================================================================== 9. the hypotheses are satisfiable *)
